@@ -115,6 +115,27 @@ func H08Identity() {
 			}
 		}
 	}
+	// every file key that some result carried has a field (the expressions project a and
+	// the .config group, or the group alone)
+	for _, kc := range []struct {
+		name string
+		seen func(r h08Res) byte
+	}{{"a", func(r h08Res) byte { return r.a }}, {"b", func(r h08Res) byte { return r.b }}, {"c", func(r h08Res) byte { return r.c }}} {
+		carried := false
+		for i := 0; i < n; i++ {
+			carried = vndOr(carried, kc.seen(st[i]) != 0)
+		}
+		has := false
+		for _, f := range proj.FlattenedFields() {
+			if f.Name == kc.name {
+				has = true
+			}
+		}
+		if kc.name == "a" && expr != ".config" {
+			continue // a is a field of its own there, present from the start
+		}
+		vndAssert(vndOr(!carried, has), "every-projected-file-key-has-a-field")
+	}
 	// each field appears once in the flattened schema
 	names := map[string]int{}
 	for _, f := range proj.FlattenedFields() {
